@@ -1,3 +1,7 @@
 -- Root of the proof library: property theorems (Props/) and helper lemmas (Proofs/).
 import RepidProofs.Props.C19
 import RepidProofs.Props.C01
+import RepidProofs.Props.C05
+import RepidProofs.Props.C12
+import RepidProofs.Props.C14
+import RepidProofs.Props.C15
